@@ -26,7 +26,9 @@ def make_scenario(case):
     kinds = case["kinds"]
     pars = case.get("pars") or [False] * n
     pkgs = case.get("pkgs") or [""] * n
-    files, ids = graphs.render_graph(g, kinds, pars, pkgs)
+    files, ids = graphs.render_graph(g, kinds, pars, pkgs,
+                                     args={int(k): v for k, v in (case.get("args") or {}).items()},
+                                     options={int(k): v for k, v in (case.get("options") or {}).items()})
     beh = {}
     pre_tree = {}
     rows = []
